@@ -149,7 +149,7 @@ def run(ctx):
     except TM.Refuse as e:
         ctx.obligation("translate_machines", False, f"translator refused: {e}")
         tr_ok = False
-    ok, out = ctx.build(["proofs/PrefixMachine.vo", "proofs/PrefixTrees.vo", "proofs/PrefixChart.vo", "proofs/DerivProofs.vo"]) if tr_ok else (False, "translator")
+    ok, out = ctx.build(["proofs/PrefixMachine.vo", "proofs/PrefixTrees.vo", "proofs/PrefixChart.vo", "proofs/DerivProofs.vo", "proofs/PrefixStringsProofs.vo", "proofs/PrefixSumProofs.vo"]) if tr_ok else (False, "translator")
     if ok:
         ctx.prove("props/C03.v")
     else:
